@@ -7,6 +7,7 @@ Structural clauses decided (DESIGN.md §5 C18):
  R3 per-path effects of the three `dispatch` bodies match the returned outcome (Queued/Dropped, counters, single try_send)
  R4 the drop / dispatch counters are written only by `dispatch`
  R5 `stats` reports exactly those counters
+ R6 a worker never takes a packet off its queue without pushing it to the batch / processing it (queued => analysed)
 """
 from ..engine import paths as PA
 from ..engine import q as Q
@@ -171,6 +172,7 @@ def _symmetric(ctx, P, b, ins, fn):
     # the selection must be decided by comparing the two endpoints (or use a commutative combination)
     S = T.Slicer(b, P)
     cmp_ok = False
+    cmp_roles = set()
     for blk in sorted(b.reachable):
         be = T.branch_edges(b, S, blk)
         if be is None:
@@ -179,15 +181,21 @@ def _symmetric(ctx, P, b, ins, fn):
         rs = set()
         for x in T.walk(atom):
             rs |= {r for r in FI.roles(x) if not r.startswith("other")} if x[0] in ("call",) and (FI.slice_range(x) or x[1].endswith("from_be_bytes")) else set()
-        if {"src_ip", "dst_ip"} <= rs or {"src_port", "dst_port"} <= rs:
-            cmp_ok = True
+        cmp_roles |= rs
+    # the order of the two endpoints must be total on (address, port): comparing the addresses alone leaves connections between
+    # two ports of one host (loopback, same-host proxies) direction dependent
+    if {"src_ip", "dst_ip", "src_port", "dst_port"} <= cmp_roles:
+        cmp_ok = True
+    partial = sorted(cmp_roles) if cmp_roles and not cmp_ok else None
     commutative = all(any(x[0] == "binop" and x[1] in ("BitXor", "BitOr", "Add") for x in T.walk(T.strip(t))) or
                       any(x[0] == "call" and (x[1].endswith("::min") or x[1].endswith("::max")) for x in T.walk(T.strip(t))) for _, t in main)
     ok = not bad and (cmp_ok or commutative)
     ctx.check(ok, "R2", "http:%s:direction-symmetric" % fn,
               "every hashed value is selected symmetrically from the two endpoints",
               "the HTTP flow hash feeds the *directed* tuple to the hasher (%s): request and response of one connection are dispatched to "
-              "different workers, so responses are never matched to their flow in parallel mode" % (bad[0][1] if bad else "no endpoint comparison"),
+              "different workers, so responses are never matched to their flow in parallel mode" % (
+                  bad[0][1] if bad else ("the endpoints are ordered by comparing only %s: connections whose endpoints tie on that (two ports of one address) "
+                                         "are hashed in packet direction" % partial) if partial else "no endpoint comparison"),
               ctx.loc(b, bad[0][0]) if bad else ctx.loc(b))
 
 
@@ -390,7 +398,20 @@ def rule_R5(ctx):
                   "per-worker drop statistic is not read from worker_dropped", ctx.loc(b))
 
 
+def rule_R6(ctx):
+    """a packet that was reported Queued is analysed: the worker never takes a packet off its queue without handing it on"""
+    from . import _workers as W
+    P = ctx.program
+    for crate, fam in (("huginn_net_tcp", "tcp"), ("huginn_net_http", "http"), ("huginn_net_tls", "tls")):
+        c = [b for b in P.method("WorkerPool", "worker_loop") if b.crate == crate]
+        if len(c) != 1:
+            ctx.cannot("R6", fam + ":worker_loop", "%d worker_loop bodies in %s" % (len(c), crate))
+            continue
+        W.received_consumed(ctx, P, fam, c[0], "R6")
+
+
 def run(ctx):
+    rule_R6(ctx)
     rule_R1(ctx)
     rule_R2(ctx)
     rule_R3(ctx)
